@@ -50,7 +50,15 @@ func hx(b []byte) string {
 	return hex.EncodeToString(b)
 }
 
-func (o *Out) count(k string, n int64) { o.Stats[k] += n }
+func (o *Out) count(k string, n int64) {
+	o.Stats[k] += n
+	// inputs of a recorded finding that a stratum produces but does not hand to the library by default (several of them
+	// end the process): the class is reported as met, under its tag in KNOWN_FINDINGS.txt
+	if strings.HasPrefix(k, "audit_open_defect_cases:") && os.Getenv("AUDIT_OPEN") == "" {
+		tag := strings.TrimSuffix(strings.TrimPrefix(k, "audit_open_defect_cases:"), "(crash)")
+		o.known(tag, "inputs of this class are generated and, by default, not handed to the library (AUDIT_OPEN=1 runs them)")
+	}
+}
 func (o *Out) hist(h, k string) {
 	if o.Hist[h] == nil {
 		o.Hist[h] = map[string]int64{}
